@@ -786,6 +786,59 @@ def repr_obligations(pid, tier, seed):
                                            'families': REPR_QUICK if quick else REPR_ALL}}
 
 
+# ---------------------------------------------------------------------------
+# C12: weighted union / intersection
+
+def weighted_obligations(pid, tier, seed):
+    from harness import h_weighted
+    obs = []
+    quick = tier == 'quick'
+    t = 200 if quick else 1500
+    kinds = ['Set', 'TreeSet', 'Bucket', 'BTree', 'None']
+    mx = 2 if quick else 3
+    for impl in ('c', 'py'):
+        for ka in kinds:
+            for kb in kinds:
+                for na in range(0, mx + 1):
+                    for nb in range(0, mx + 1):
+                        if (ka == 'None' and na) or (kb == 'None' and nb):
+                            continue
+                        if quick and (na + nb > 3 or (na + nb == 3 and (impl == 'c' or ka == kb))):
+                            continue
+                        if quick and impl == 'py' and na + nb > 2 and ka in ('TreeSet', 'BTree') and kb in ('TreeSet', 'BTree'):
+                            continue
+                        args = [('a%d' % i, 'int') for i in range(na)] + [('b%d' % i, 'int') for i in range(nb)]
+                        pre = []
+                        if na > 1:
+                            pre.append(' < '.join('a%d' % i for i in range(na)))
+                        if nb > 1:
+                            pre.append(' < '.join('b%d' % i for i in range(nb)))
+                        args += [('fn', 'int'), ('dflt', 'bool'), ('w1', 'int'), ('w2', 'int')]
+                        pre += ['0 <= fn < 2']
+                        nva = na if ka in ('Bucket', 'BTree') else 0
+                        nvb = nb if kb in ('Bucket', 'BTree') else 0
+                        args += [('va%d' % i, 'int') for i in range(na)] + [('vb%d' % i, 'int') for i in range(nb)]
+                        if impl == 'c':
+                            pre += ['0 <= w1 < %d' % len(h_weighted.WPAL), '0 <= w2 < 2']
+                            pre += ['0 <= va%d < %d' % (i, len(h_weighted.VPAL) if i < nva else 1) for i in range(na)]
+                            pre += ['0 <= vb%d < %d' % (i, len(h_weighted.VPAL) if i < nvb else 1) for i in range(nb)]
+                        else:
+                            pre += ['-100 <= w1 <= 100', '-100 <= w2 <= 100']
+                            pre += ['-100 <= va%d <= 100' % i if i < nva else 'va%d == 1' % i for i in range(na)]
+                            pre += ['-100 <= vb%d <= 100' % i if i < nvb else 'vb%d == 1' % i for i in range(nb)]
+                        P = dict(impl=impl, family='OL', ka=ka, kb=kb, na=na, nb=nb)
+                        obs.append(dict(id='%s/%s/%s-%s/%d%d' % (pid, impl, ka, kb, na, nb), mod='h_weighted', fn='weighted_case',
+                                        nk=0, args=args, pre=pre, params=P, timeout=t))
+        for ka in ('Set', 'TreeSet', 'Bucket', 'BTree'):
+            for kb in ('Set', 'TreeSet', 'Bucket', 'BTree'):
+                obs.append(dict(id='%s/%s/float/%s-%s' % (pid, impl, ka, kb), mod='h_weighted', fn='weighted_float', nk=0,
+                                args=[('fn', 'int'), ('w1', 'int'), ('w2', 'int'), ('lay', 'int'), ('v0', 'int'), ('v1', 'int')],
+                                pre=['0 <= fn < 2', '0 <= w1 < 3', '0 <= w2 < 3', '0 <= lay < 4', '0 <= v0 < 2', '0 <= v1 < 2'],
+                                params=dict(impl=impl, family='IF', ka=ka, kb=kb), timeout=t))
+    return {'obligations': obs, 'bounds': {'max_keys_per_operand': mx, 'python_values_and_weights': 'symbolic integers in [-100, 100]',
+                                           'c_weight_palette': h_weighted.WPAL, 'c_value_palette': h_weighted.VPAL}}
+
+
 COMMON_ASSUME = [
     'key objects are observed by the containers only through rich comparison, identity and None-ness '
     '(true for the object-key templates; native-key families are covered by their own obligations where stated)',
@@ -1063,5 +1116,21 @@ PROPS = {
                    '(check_argument_cmp), _fsBTree.c, as compiled into _bucket_set/_BTree_set/_bucket_setstate/_set_setstate'],
         stubs=['struct.Struct(fmt).pack for i/I/q/Q: accepts exactly the integers of the format range (calibrated against struct at start-up)'],
         assumptions=['compiled code: arguments are concrete palette values selected by the solver (keys are unboxed in C)'],
+    ),
+    'C12': dict(
+        families=['OL', 'IF'],
+        gen=lambda tier, seed: weighted_obligations('C12', tier, seed),
+        explanation='weightedUnion / weightedIntersection of the object-key, 64-bit-value family OL on two operands of every kind '
+                    '(Set, TreeSet, Bucket, BTree, None) whose keys are symbolic in both implementations (every interleaving of the '
+                    'two key sequences is a solver-enumerated path); values and weights are symbolic integers in the Python '
+                    'implementation (the real _base.weightedUnion/_set_operation code multiplies symbols; z3 decides) and '
+                    'solver-chosen palette entries incl. weights that do not fit 32 bits in C. Oracle: the formula documented in '
+                    'Interfaces.IMerge in exact integers (result weight, result kind, keys, v1*w1 + v2*w2, set member = 1, missing = 0, '
+                    'both sets -> plain set with weight 1 / w1+w2, None short-circuits returning the operand itself, default weights). '
+                    'Float family IF: concrete keys, palettes of values/weights exact in single precision, all operand kind pairs.',
+        functions=['_OLBTree.so/_IFBTree.so: wunion_m, wintersection_m, set_operation (operand swap, MERGE, MERGE_WEIGHT, MERGE_DEFAULT, '
+                   'copyRemaining)', 'BTrees._base: weightedUnion, weightedIntersection, _set_operation, MERGE/MERGE_WEIGHT of _datatypes'],
+        assumptions=['no intermediate result leaves the 64-bit value range (overflow is outside the documented formula)',
+                     'compiled code: values and weights are concrete palette entries chosen by the solver'],
     ),
 }
